@@ -1,4 +1,4 @@
 From Coq Require Import Extraction ExtrOcamlBasic.
 From Elvis Require Import Model.Base Model.Demux.
 Extraction Language OCaml.
-Extraction "../ocaml/gen/demux_model.ml" validate listen_codes tx_code_ok expected_frames observed_frames predicted arrivals any_panic.
+Extraction "../ocaml/gen/demux_model.ml" validate listen_codes tx_code_ok expected_frames observed_frames predicted arrivals any_panic frame_to_ok.
